@@ -90,7 +90,7 @@ class C16(F.PropCheck):
                      'sizeof(struct mqtt_queued_message) is the host value (40; 32 on the target): the send queue fills later on the device']
     assumptions = ['one broker session up to its first protocol error; device-originated PUBLISH packets with QoS > 0 are outside the model',
                    'segmentation theorems: the send queue is never compacted while receiving (d_tight = false)']
-    rule = ('broker streams of 1-12 packets (CONNACK, PUBLISH QoS 0/1/2 with topic/payload lengths 0..buffer size, SUBACK/PINGRESP/PUBACK for '
+    rule = ('broker streams of 1-12 packets (CONNACK, PUBLISH QoS 0/1/2 with topic/payload lengths 0..buffer size, QoS 2 retransmissions at aimed points, SUBACK/PINGRESP/PUBACK for '
             'outstanding and unknown requests (device SUBSCRIBE/PINGREQ/QoS 1 PUBLISH), PUBREL, unknown acknowledgements; single-field corruptions of type, flags, remaining length, '
             'topic length; random bytes) x segmentations (whole, 1-byte, 10+rest, random cuts, coalesced up to 1460 bytes) x TICK interleaving; '
             'non-trivial = at least one MSG or ERR observed; distinct by sha256 of the event text')
@@ -104,7 +104,7 @@ class C16(F.PropCheck):
         items = []; tags = []
         npk = rng.choice([1, 2, 2, 3, 3, 4, 5, 6, 8, 12])
         bad_at = rng.randrange(npk) if rng.random() < 0.4 else -1
-        next_dev_pid = [rng.randrange(1, 500)]; qos2_open = []
+        next_dev_pid = [rng.randrange(1, 500)]; qos2_open = []; qos2_orig = {}
         def rbytes(n): return bytes(rng.getrandbits(8) for _ in range(n))
         def topic(n):
             if rng.random() < 0.5: return (b'supla/devices/x/channels/0/set/on' * (n // 30 + 1))[:n]
@@ -148,12 +148,18 @@ class C16(F.PropCheck):
                     rest = max(0, total - over - (0 if total - 2 < 128 else 1)); tl = rng.randrange(0, rest + 1); pln = rest - tl
                 else: tl, pln = rng.randrange(0, 600), rng.randrange(0, 600)
                 bpid += 1
-                p = publish(topic(tl), rbytes(pln), qos=q, pid=bpid, dup=rng.choice([0, 0, 0, 1]), retain=rng.choice([0, 1]))
-                if q == 2: qos2_open.append(bpid)
+                tp, pl, rt = topic(tl), rbytes(pln), rng.choice([0, 1])
+                p = publish(tp, pl, qos=q, pid=bpid, dup=rng.choice([0, 0, 0, 1]), retain=rt)
+                if q == 2:
+                    qos2_open.append(bpid); qos2_orig[bpid] = (tp, pl, rt)
+                    if rng.random() < 0.25:      # retransmission coalesced right behind the original
+                        p += publish(tp, pl, qos=2, pid=bpid, dup=1, retain=rt); tags.append('publish-qos2-retransmit-coalesced')
                 tags.append('publish-qos%d' % q)
             elif k < 0.66 and qos2_open:
                 # retransmission of a QoS 2 PUBLISH whose PUBREL has not been sent yet (same id, DUP set)
-                p = publish(b'dup/topic', b'again', qos=2, pid=rng.choice(qos2_open), dup=1); tags.append('publish-qos2-retransmit')
+                rp = rng.choice(qos2_open); tp, pl, rt = qos2_orig[rp]
+                p = publish(tp, pl, qos=2, pid=rp, dup=1, retain=rt); tags.append('publish-qos2-retransmit')
+                if rng.random() < 0.5: dev.append(('TICK', [], b''))    # own segment, after our PUBREC went out
             elif k < 0.72:
                 pid = next_dev_pid[0]; next_dev_pid[0] += rng.randrange(1, 5)
                 dev.append(('SUB', [pid, 10], b'')); p = suback(pid, [rng.choice([0, 0, 0, 1, 2, 0x80])]); tags.append('suback')
@@ -216,6 +222,16 @@ class C16(F.PropCheck):
         for m in (60, 100, 140):
             s = connack() + b''.join(publish(b'', b'', qos=1, pid=100 + j) for j in range(m))
             cases.append(F.Case('sendq%d' % m, [('START', [cs, 0], b''), ('SEG', [], s[:1024]), ('SEG', [], s[1024:]), ('TICK', [], b'')], ['send-queue']))
+        # QoS 2 retransmissions (same id, DUP set) at aimed points: same segment, next segment, after a tick, split, after PUBREL
+        S = ('START', [cs, 0], b''); T = ('TICK', [], b'')
+        for j, (tp, pl) in enumerate(((b't/1', b'on'), (b'supla/devices/x/channels/0/execute_action', b'toggle'), (b'a', b''), (b'tt', b'x' * 300))):
+            o = publish(tp, pl, qos=2, pid=40 + j); d = publish(tp, pl, qos=2, pid=40 + j, dup=1); rel = pubxxx(6, 40 + j)
+            nxt = publish(b'n/1', b'z', qos=1, pid=90 + j)
+            seqs = {'same': [connack() + o + d], 'next': [connack() + o, d], 'tick': [connack() + o, T, d], 'twice': [connack() + o, d, d + nxt],
+                    'split': [connack() + o + d[:len(d) // 2], d[len(d) // 2:] + nxt], 'rel': [connack() + o + d, T, rel, nxt],
+                    'midrel': [connack() + o, d, rel, T, nxt], 'afterrel': [connack() + o, rel, T, d]}
+            for name, seq in seqs.items():
+                cases.append(F.Case('q2dup_%s_%d' % (name, j), [S] + [x if isinstance(x, tuple) else ('SEG', [], x) for x in seq] + [T], ['qos2-retransmit-aimed']))
         # exhaustive two-cut segmentations of a short stream
         s = connack() + publish(b't/1', b'on', qos=1, pid=7) + publish(b'ab', b'', qos=2, pid=9) + pubxxx(6, 9)
         lim = len(s) if tier == 'thorough' else 12
@@ -246,7 +262,7 @@ class C16(F.PropCheck):
         # --- expected, by the reference parser
         exp = []; exp_acks = []; end = None     # end: None | ('malformed', why, must_report) | ('legit', why)
         q2_this_seg = set()
-        pubs = set(); pubacked = set()
+        pubs = set(); pubacked = set(); dup_pids = set(); dup_msgs = {}
         pend = b''; subs = set(); subacked = set(); pings = 0; connacked = False; q2_open = set(); q2_seen = set()
         optional_from = None
         for (k, ints, data) in case.evs:
@@ -268,6 +284,9 @@ class C16(F.PropCheck):
                     ct = info['ct']
                     if ct == 3:
                         if info['qos'] == 2:
+                            if info['pid'] in q2_open and info['dup'] == 1:
+                                # retransmission before PUBREL: the same message, must not be passed to the handler again
+                                dup_pids.add(info['pid']); dup_msgs[(info['topic'], info['payload'], 2, 1, info['retain'])] = info['pid']; continue
                             if info['pid'] in q2_seen: end = ('legit', 'QoS 2 packet id used again'); break
                             q2_seen.add(info['pid']); q2_open.add(info['pid']); exp_acks.append((5, info['pid'])); q2_this_seg.add(info['pid'])
                         elif info['qos'] == 1: exp_acks.append((4, info['pid']))
@@ -299,7 +318,16 @@ class C16(F.PropCheck):
         legit = bool(end)
         if legit: msgs = msgs[:len(exp)]; acks = acks[:len(exp_acks)]   # what happens after an ambiguous point is left to the model comparison
         # --- compare
+        # a second PUBREC for a retransmission is allowed (MQTT-4.3.3), not required
+        seen5 = set(); acks2 = []
+        for a in acks:
+            if a[0] == 5 and a[1] in seen5 and a[1] in dup_pids: continue
+            if a[0] == 5: seen5.add(a[1])
+            acks2.append(a)
+        acks = acks2
         for i, m in enumerate(msgs):
+            if (i >= len(exp) or m != exp[i]) and m in dup_msgs and not (i < len(exp) and False):
+                v.append('retransmitted QoS 2 PUBLISH (id %d, DUP set, PUBREL not yet received) was passed to the handler a second time' % dup_msgs[m]); return v
             if i >= len(exp):
                 v.append('callback #%d (topic %d bytes, payload %d bytes) is not a PUBLISH of the stream (%d well-formed PUBLISH before %s)' %
                          (i, len(m[0]), len(m[1]), len(exp), end[1] if end else 'the end of the stream')); return v
